@@ -95,6 +95,8 @@ def main():
         res = m.get("checks_reporting", {})
         mine = res.get(tgt, {}).get("reports", []) if isinstance(res.get(tgt), dict) else []
         caught = "; ".join(sorted({r.split(":")[0].split(" ")[0] + ": " + " ".join(r.split(" ")[1:2])[:70] for r in mine})) or "**not caught** (value-level change, see 10.5)"
+        if m.get("obsolete"):
+            caught = "*obsolete*: " + str(m["obsolete"])[:160]
         others = ", ".join(sorted(k for k in res if k != tgt and not k.startswith("_")))
         out.append(f"| {name} | {tgt} | {esc(caught)[:260]} | {others or '—'} |")
 
